@@ -250,7 +250,7 @@ func (o *c17Oracle) after(ch *chain, ci *callInfo) *Violation {
 }
 
 func genC17(t *rapid.T, tier string) interface{} {
-	pr := &histProfile{MaxBlocks: 10, MinBlocksOf: []int{2, 5, 8}, MaxTxs: 8, Evidence: 0, Missed: 0, Restart: 0, GovHandover: true,
+	pr := &histProfile{OwnerBias: 1, MaxBlocks: 10, MinBlocksOf: []int{2, 5, 8}, MaxTxs: 8, Evidence: 0, Missed: 0, Restart: 0, GovHandover: true,
 		TxKinds: []string{"param", "param", "param", "param", "dao", "dao", "upgrade", "send"}, WrongSigner: 12}
 	if tier == "thorough" {
 		pr.MaxBlocks = 24
